@@ -148,11 +148,11 @@ def genericWith (chk : Bool) (m : Method) (st : State α) (dend : Dendrogram α)
   -- heapify with the initial nearest neighbours
   let nearest0 := st.nearest
   let init ← (List.range (M.n - 1)).foldlM (genericInitRow chk M M.n)
-      ((Heap.fresh st.queue.prio.size : Heap α).prio, nearest0)
+      ((Gen.heapReset st.queue st.queue.prio.size).prio, nearest0)
   let queue ← st.queue.heapifyWith chk (fun _ => pure init.1)
   let st := { st with queue := queue, nearest := init.2 }
   let (st, dend, M) ← iterM (genericIter chk m) (M.n - 1) (st, dend, M)
-  let (uf, dend) ← relabel m dend
+  let (uf, dend) ← relabel m st.set dend
   let dend := sqrtSteps m dend
   pure ({ st with set := uf }, dend, M)
 
